@@ -19,16 +19,8 @@ func getIntField(L *LState, tb *LTable, key string, v int) int {
 	case LNumber:
 		return int(lv)
 	case LString:
-		slv := string(lv)
-		slv = strings.TrimLeft(slv, " ")
-		if strings.HasPrefix(slv, "0") && !strings.HasPrefix(slv, "0x") && !strings.HasPrefix(slv, "0X") {
-			// Standard lua interpreter only support decimal and hexadecimal
-			slv = strings.TrimLeft(slv, "0")
-			if slv == "" {
-				return 0
-			}
-		}
-		if num, err := parseNumber(slv); err == nil {
+		// a numeric string counts as in tonumber and arithmetic
+		if num, err := parseNumber(string(lv)); err == nil {
 			return int(num)
 		}
 	default:
